@@ -5,6 +5,7 @@
 (* beneficiary named in the arguments, a stranger) and nobody, over every history     *)
 (* of role transfers among three addresses (incl. transfer to self and back).         *)
 EXTENDS Gateway, Json, SequencesExt
+CONSTANT Op0    \* the operator named at construction: "op0", or "owner0" (the SAME address as the owner)
 VARIABLE st
 
 MC_Sets == [a |-> [keys |-> <<1, 2>>, weights |-> <<1, 1>>, threshold |-> 2, nonce |-> 1],
@@ -25,7 +26,7 @@ Acts(s) ==
                     e \in {x \in 1..s.epoch : s.epoch - x <= Retention}, au \in Auths}
           ELSE {})
 
-InitState == [Install(Blank("owner0", "op0", 0), "a") EXCEPT !.deployed = TRUE]
+InitState == [Install(Blank("owner0", Op0, 0), "a") EXCEPT !.deployed = TRUE]
 Init == st = InitState
 Next == \E a \in Acts(st) : st' = Apply(st, a).post
 
